@@ -52,6 +52,23 @@ def cases():
         c.append(("infix 3-x[%s]" % nm, ("meth", "__rsub__"), [sort], [3], lambda v, W: 3 - v[0]))
         c.append(("infix 3*x[%s]" % nm, ("meth", "__rmul__"), [sort], [3], lambda v, W: 3 * v[0]))
         c.append(("infix x-3[%s]" % nm, ("meth", "__sub__"), [sort], [3], lambda v, W: v[0] - 3))
+    # compound operands: n-ary products and sums with constants at every position, differences, nested forms
+    from fractions import Fraction as F_
+    for sort, nm, mk in ((INT, "Int", lambda k: ("lit", k, INT)), (REAL, "Real", lambda k: ("lit", F_(k), REAL))):
+        x_, y_, z_ = proc.S("x", sort), proc.S("y", sort), proc.S("z", sort)
+        terms = [("Times", x_, mk(-2), y_), ("Times", mk(-2), x_, y_), ("Times", x_, y_, mk(-1)), ("Times", x_, mk(-1)), ("Times", mk(-1), x_),
+                 ("Times", x_, mk(-1), y_, z_), ("Times", x_, mk(3), mk(-1)), ("Minus", x_, y_), ("Plus", x_, mk(-3), y_), ("Minus", mk(0), x_),
+                 ("Times", ("Plus", x_, mk(1)), mk(-1), y_), ("Ite", ("LT", x_, y_), ("Times", x_, mk(-2), y_), y_)]
+        for t_ in terms:
+            sh_ = ("shape", t_)
+            tn = proc.shape_str(t_)
+            c.append(("Abs(%s)[%s]" % (tn, nm), ("fn", "pysmt.shortcuts", "Abs"), [sh_], [], lambda v, W: abs(v[0])))
+            c.append(("Min(%s, z)[%s]" % (tn, nm), ("mgr", "Min"), [sh_, sort], [], lambda v, W: min(v)))
+            c.append(("Max(z, %s)[%s]" % (tn, nm), ("mgr", "Max"), [sort, sh_], [], lambda v, W: max(v)))
+        c.append(("Min(x, 3, y, -2)[%s]" % nm, ("mgr", "Min"), [sort, ("shape", mk(3)), sort, ("shape", mk(-2))], [], lambda v, W: min(v)))
+        c.append(("Max(-2, x, 3, y)[%s]" % nm, ("mgr", "Max"), [("shape", mk(-2)), sort, ("shape", mk(3)), sort], [], lambda v, W: max(v)))
+        c.append(("GE(x*-2*y, x-y)[%s]" % nm, ("mgr", "GE"), [("shape", terms[0]), ("shape", terms[7])], [], lambda v, W: v[0] >= v[1]))
+        c.append(("NotEquals(x*-1, 0-x)[%s]" % nm, ("mgr", "NotEquals"), [("shape", terms[3]), ("shape", terms[9])], [], lambda v, W: v[0] != v[1]))
     c.append(("Xor", ("mgr", "Xor"), [B, B], [], lambda v, W: v[0] != v[1]))
     c.append(("NotEquals[Bool via EqualsOrIff]", ("mgr", "EqualsOrIff"), [B, B], [], lambda v, W: v[0] == v[1]))
     c.append(("EqualsOrIff[Int]", ("mgr", "EqualsOrIff"), [INT, INT], [], lambda v, W: v[0] == v[1]))
@@ -138,7 +155,9 @@ def _job(idx):
     def one(ex):
         it = Interp(ex)
         w = proc.setup_env(__import__("sa.world", fromlist=["World"]).World().attach(it))
-        ops = [w.symbol("t%d" % i, sc._sort(w, s)) for i, s in enumerate(sorts)]
+        # an operand is a fresh symbol of the given sort, or a compound term given as a skeleton
+        ops = [proc.build_shape(w, s[1]) if isinstance(s, tuple) and s and s[0] == "shape" else w.symbol("t%d" % i, sc._sort(w, s))
+               for i, s in enumerate(sorts)]
         for e in extra:
             if isinstance(e, str) and e.startswith("same:"):      # operand j is the very same term as operand i
                 _, i_, j_ = e.split(":")
@@ -189,7 +208,7 @@ def _job(idx):
             for asg in sc.assignments(w, ops + [r], p.facts(), max_w=3):
                 if not sc.facts_hold(p.facts(), asg):
                     continue
-                vals = [asg["sym:" + w.npayload(o)[0]] for o in ops]
+                vals = [asg["sym:" + w.npayload(o)[0]] if w.opname(o) == "SYMBOL" else sc.nodeval(w, o, asg) for o in ops]
                 W = asg.get("W")
                 try:
                     exp = ref(vals, W)
